@@ -30,6 +30,9 @@ type quotaSpec struct {
 	LimiterOn string `json:"limiter_on"`           // qc | qp
 	// a second limiter on an unrelated fixed-window quota sits behind the concurrency limiter
 	SecondLimiter bool `json:"second_limiter,omitempty"`
+	// mixed hierarchy: the internal limit under the concurrency quota is a (practically unlimited)
+	// fixed-window quota and the flow's limiter points at it; only the parent bounds the in-flight number
+	ChildFixed bool `json:"child_is_fixed_window,omitempty"`
 }
 
 type op struct {
@@ -55,7 +58,11 @@ func quotaYAML(q quotaSpec) string {
 	var sb strings.Builder
 	if q.ParentMax > 0 {
 		fmt.Fprintf(&sb, "quotas:\n  - id: qp\n    filter:\n      url: a.com/*\n    strategy:\n      concurrent:\n        max_request_count: %d\n        request_expiration_sec: %d\n        gc_interval_sec: %d\n", q.ParentMax, q.ExpireS, q.GCS)
-		fmt.Fprintf(&sb, "internal_limits:\n  - id: qc\n    parent_id: qp\n    strategy:\n      concurrent:\n        max_request_count: %d\n        request_expiration_sec: %d\n        gc_interval_sec: %d\n", q.Max, q.ExpireS, q.GCS)
+		if q.ChildFixed {
+			sb.WriteString("internal_limits:\n  - id: qc\n    parent_id: qp\n    strategy:\n      fixed_window:\n        max: 100000000\n        interval: 1\n        interval_unit: hour\n")
+		} else {
+			fmt.Fprintf(&sb, "internal_limits:\n  - id: qc\n    parent_id: qp\n    strategy:\n      concurrent:\n        max_request_count: %d\n        request_expiration_sec: %d\n        gc_interval_sec: %d\n", q.Max, q.ExpireS, q.GCS)
+		}
 	} else {
 		fmt.Fprintf(&sb, "quotas:\n  - id: qc\n    filter:\n      url: a.com/*\n    strategy:\n      concurrent:\n        max_request_count: %d\n        request_expiration_sec: %d\n        gc_interval_sec: %d\n", q.Max, q.ExpireS, q.GCS)
 	}
@@ -154,11 +161,17 @@ func genQuota(r *sim.Rand) quotaSpec {
 		}
 	}
 	q.SecondLimiter = r.Chance(1, 4)
+	if q.ParentMax > 0 && q.LimiterOn == "qc" && r.Chance(1, 3) {
+		q.ChildFixed = true
+	}
 	return q
 }
 
 // effective capacity seen through the limiter
 func (q quotaSpec) cap() int {
+	if q.ChildFixed {
+		return int(q.ParentMax)
+	}
 	if q.ParentMax > 0 {
 		if q.LimiterOn == "qp" {
 			return int(q.ParentMax)
@@ -171,6 +184,9 @@ func (q quotaSpec) cap() int {
 }
 
 func (q quotaSpec) loops() int {
+	if q.ChildFixed {
+		return 1
+	}
 	if q.ParentMax > 0 {
 		return 2
 	}
@@ -480,6 +496,17 @@ func genOps(r *sim.Rand, q quotaSpec, n int) []op {
 		if len(live) > 6 {
 			live = live[1:]
 		}
+	}
+	if r.Chance(1, 3) {
+		// a request id comes back (a client retrying a call that timed out) after the transaction it named
+		// was abandoned, expired and collected, while other transactions fill the quota
+		rid := fmt.Sprintf("t%d-again", next)
+		ops = append(ops, op{Kind: "advance", DtMs: (q.ExpireS + 8*q.GCS) * 1000}, op{Kind: "req", ID: rid},
+			op{Kind: "advance", DtMs: (q.ExpireS + 8*q.GCS) * 1000})
+		for k := 0; k < q.cap()+1; k++ {
+			ops = append(ops, op{Kind: "req", ID: fmt.Sprintf("t%d-fill%d", next, k)})
+		}
+		ops = append(ops, op{Kind: "req", ID: rid}, op{Kind: "probe"})
 	}
 	ops = append(ops, op{Kind: "advance", DtMs: (q.ExpireS + 8*q.GCS) * 1000}, op{Kind: "probe"})
 	return ops
